@@ -111,6 +111,13 @@ enum BOp {
     /// take back what `Change` did (drop the trailing "!" / the fresh member; delete a key that
     /// holds exactly "!"): Change … Undo brings a key back to an earlier value (A -> B -> A)
     Undo(u16),
+    /// a change that keeps every coarse abstraction of the value (type, number of elements, the
+    /// multiset of all strings it contains, total length) and alters only the arrangement: two
+    /// hash fields swap their values (or the single field and its value change places), two
+    /// sorted-set members swap their scores, a list is reversed, a string is reversed (or one
+    /// byte of it replaced). A WATCH snapshot that compares anything less than the value itself
+    /// (a sorted flat list, a length, a digest of the members) does not see it.
+    Permute(u16),
 }
 
 #[derive(Clone, Debug, Serialize, Deserialize)]
@@ -265,6 +272,7 @@ fn b_action() -> BoxedStrategy<BAction> {
             4 => any::<u16>().prop_map(BOp::Change),
             1 => any::<u16>().prop_map(BOp::Del),
             2 => any::<u16>().prop_map(BOp::Undo),
+            3 => any::<u16>().prop_map(BOp::Permute),
         ],
     )
         .prop_map(|(at, op)| BAction { at, op })
@@ -303,7 +311,7 @@ fn script(conn_level: bool) -> BoxedStrategy<Script> {
                 }
                 for a in b.iter_mut() {
                     match &mut a.op {
-                        BOp::Touch(k) | BOp::Rewrite(k) | BOp::Change(k) | BOp::Del(k) | BOp::Undo(k) => *k = h,
+                        BOp::Touch(k) | BOp::Rewrite(k) | BOp::Change(k) | BOp::Del(k) | BOp::Undo(k) | BOp::Permute(k) => *k = h,
                         BOp::Write(_) => {}
                     }
                 }
@@ -508,6 +516,64 @@ fn resolve_b(op: &BOp, d: &Dump) -> Vec<Argv> {
                     "hash" => vec![vec![b("HDEL"), key, fresh]],
                     _ => vec![vec![b("ZREM"), key, fresh]],
                 },
+            }
+        }
+        BOp::Permute(k) => {
+            let key = key_of(*k);
+            let other_byte = |x: u8| if x == b'a' { b'b' } else { b'a' };
+            match d.get(&key) {
+                None => vec![vec![b("EXISTS"), key]],
+                Some(kd) => {
+                    let el = first_elems(&kd.value);
+                    match kd.ty.as_str() {
+                        "string" => {
+                            let cur = kd.value.as_bulk().unwrap_or(b"").to_vec();
+                            let mut rev = cur.clone();
+                            rev.reverse();
+                            if rev != cur {
+                                vec![vec![b("SET"), key, rev]]
+                            } else if let Some(last) = cur.last().copied() {
+                                let mut v = cur.clone();
+                                *v.last_mut().expect("non-empty") = other_byte(last);
+                                vec![vec![b("SET"), key, v]]
+                            } else {
+                                vec![vec![b("EXISTS"), key]]
+                            }
+                        }
+                        "list" => {
+                            let mut rev = el.clone();
+                            rev.reverse();
+                            if rev != el {
+                                let mut push = vec![b("RPUSH"), key.clone()];
+                                push.extend(rev);
+                                vec![vec![b("DEL"), key], push]
+                            } else {
+                                vec![vec![b("EXISTS"), key]]
+                            }
+                        }
+                        "hash" if el.len() >= 4 && el[1] != el[3] => vec![vec![
+                            b("HSET"),
+                            key,
+                            el[0].clone(),
+                            el[3].clone(),
+                            el[2].clone(),
+                            el[1].clone(),
+                        ]],
+                        "hash" if el.len() >= 2 && el[0] != el[1] => vec![
+                            vec![b("HDEL"), key.clone(), el[0].clone()],
+                            vec![b("HSET"), key, el[1].clone(), el[0].clone()],
+                        ],
+                        "zset" if el.len() >= 4 && el[1] != el[3] => vec![vec![
+                            b("ZADD"),
+                            key,
+                            el[3].clone(),
+                            el[0].clone(),
+                            el[1].clone(),
+                            el[2].clone(),
+                        ]],
+                        _ => vec![vec![b("EXISTS"), key]],
+                    }
+                }
             }
         }
         BOp::Touch(k) => {
@@ -808,6 +874,27 @@ fn judge_exec(m: &mut Model, reply: &Reply, now: &Dump, executor_tier: bool) -> 
         }
         if m.watched.iter().any(|w| w.at_watch.as_ref().map(|d| d.ty != "string").unwrap_or(false)) {
             m.label("watch_non_string");
+        }
+        // the value differs from the snapshot only in arrangement: same type, same multiset of strings
+        let flat = |d: &KeyDump| {
+            let mut v: Vec<Vec<u8>> = match d.value.as_bulk() {
+                Some(x) => x.iter().map(|c| vec![*c]).collect(),
+                None => first_elems(&d.value),
+            };
+            v.sort();
+            v
+        };
+        if m.watched.iter().any(|w| match (w.at_watch.as_ref(), now.get(&w.key)) {
+            (Some(x), Some(y)) => x != y && x.ty == y.ty && x.ty != "string" && flat(x) == flat(y),
+            _ => false,
+        }) {
+            m.label("watched_value_rearranged_same_strings");
+        }
+        if m.watched.iter().any(|w| match (w.at_watch.as_ref(), now.get(&w.key)) {
+            (Some(x), Some(y)) => x != y && x.ty == "string" && y.ty == "string" && flat(x) == flat(y),
+            _ => false,
+        }) {
+            m.label("watched_string_rearranged_same_bytes");
         }
         if m.watched.iter().any(|w| w.at_watch.is_none()) {
             m.label("watch_missing_key");
